@@ -264,6 +264,34 @@ int main(int argc, char **argv) {
 		}
 		sample("printf-longnum: \"%9223372036854775808d\", \"%.99999999999999999999d\", \"%<30 digits>$d\", truncated \"x%-<digits>\"; the agent expands at most 1000 pad characters");
 	}
+	if(want_mode("long-inputs")) {
+		// inputs far longer than anything the exhaustive alphabets or the 64-byte fuzz inputs contain: long runs of flags, digits,
+		// directives, options, separators, quoted text (a fixed-size scratch array or a counter narrower than size_t shows up here)
+		Rng r(derive_seed("long"));
+		long long i = 0;
+		auto rep = [](const std::string &u, size_t n) { std::string o; for(size_t k = 0; k < n; k++) o += u; return o; };
+		std::vector<std::string> pf = {
+			"%" + rep("-", 80) + "d", "%" + rep("0", 90) + "5d", "%" + rep("+ #0-'", 40) + "x", "%" + rep("7", 300) + "d", "%." + rep("3", 300) + "s", "%" + rep("1", 200) + "$d",
+			rep("%d", 200), rep("%5.3ld|", 120), rep("%s", 150), rep("%1$d ", 100), rep("%%", 500), rep("x", 5000), rep("%c%s%p", 70), "%" + rep("l", 70) + "d", "%" + rep("h", 71) + "u", rep("%*d", 90), rep("%.*s", 90),
+			rep("%-08.3llx ", 64) + "%", rep("%2$s %1$s ", 60), "%" + rep("9", 100) + "." + rep("9", 100) + "d" };
+		for(auto &f : pf) { if((i++ % opt.nshards) != opt.shard) continue; begin_case("long-inputs", i); printf_input(f, r, true); note_distinct(hash_str("lp:" + f)); count("long_input_cases"); }
+		std::vector<std::string> ff = { "{" + rep("4", 300) + "}", "{:" + rep("8", 300) + "}", "{0:0" + rep("1", 300) + "x}", rep("{}", 300), rep("{0} ", 200), rep("{", 400), rep("}", 400), rep("{:x}{:08d}", 100), rep("a", 6000), "{" + rep(":", 300) + "}" };
+		for(auto &f : ff) { if((i++ % opt.nshards) != opt.shard) continue; begin_case("long-inputs", i); fmt_input(f, r); note_distinct(hash_str("lf:" + f)); count("long_input_cases"); }
+		std::vector<std::string> cl = { rep("a=1 ", 300), rep("a ", 500), rep(" ", 3000), "s=" + rep("v", 5000), "\"" + rep("q ", 1500) + "\"", rep("\"a=1\" ", 200), rep("=", 2000), rep("\"", 1001), rep("n=127 u=5 i=-3 h=65535 s=x b a ", 100), "u=" + rep("9", 400), rep("x86.nosmp ", 200) + "a", rep("a=", 700) };
+		for(auto &f : cl) { if((i++ % opt.nshards) != opt.shard) continue; begin_case("long-inputs", i); cmdline_input(f, r); note_distinct(hash_str("lc:" + f)); count("long_input_cases"); }
+		std::vector<std::string> tn = { rep("9", 300), rep("0", 300) + "1", "-" + rep("1", 300), rep("0", 5000), rep("1", 64), rep("7", 65) };
+		for(auto &f : tn) { if((i++ % opt.nshards) != opt.shard) continue; begin_case("long-inputs", i); to_number_input(f, r); note_distinct(hash_str("lt:" + f)); count("long_input_cases"); }
+		// random long mixtures
+		for(uint64_t k = 0; k < scaled(300, 20000); k++) {
+			begin_case("long-inputs", 1000 + k);
+			std::string f; size_t target = 100 + r.below(900);
+			int kind = r.below(3);
+			while(f.size() < target) f += kind == 0 ? gen_printf(r) : kind == 1 ? gen_cmdline(r) : std::string(1 + r.below(6), "{}:0123456789x "[r.below(15)]);
+			if(kind == 0) printf_input(f, r, false); else if(kind == 1) cmdline_input(f, r); else fmt_input(f, r);
+			note_distinct(hash_str("lr:" + f)); count("long_input_cases");
+		}
+		sample("long-inputs: 80 flags, 300-digit widths/precisions/positions, 200 directives, 6000 literal bytes, 300 options on one command line, 5000-byte values, 3000 separators, 300-digit numbers; random concatenations up to 1000 bytes");
+	}
 	if(want_mode("printf-gen")) {
 		Rng r(derive_seed("pg"));
 		uint64_t n = scaled(400000, 3000000);
